@@ -96,7 +96,7 @@ func (c *callCtx) writeTo(w *SV, src *SV, maxN int) *SV {
 	if w.File {
 		nn := vc.freshS(SBV64, "nwritten")
 		err := vc.freshError(st, "werr")
-		vc.assume(and(app("bvsle", bvLit(64, 0), nn), app("bvsle", nn, src.C[2]), implies(app("bvslt", nn, src.C[2]), isErr(err))))
+		vc.assume(implies(c.n.Reach, and(app("bvsle", bvLit(64, 0), nn), app("bvsle", nn, src.C[2]), implies(app("bvslt", nn, src.C[2]), isErr(err)))))
 		vc.saneFile(ref)
 		pos := vc.defS(SBV64, sel(st.H["Fpos"], ref), "fpos")
 		c.fileWrite(ref, pos, src, nn, maxN, true)
@@ -105,7 +105,7 @@ func (c *callCtx) writeTo(w *SV, src *SV, maxN int) *SV {
 	vc.note(aWriter)
 	nn := vc.freshS(SBV64, "nwritten")
 	err := vc.freshError(st, "werr")
-	vc.assume(and(app("bvsle", bvLit(64, 0), nn), app("bvsle", nn, src.C[2]), implies(app("bvslt", nn, src.C[2]), isErr(err))))
+	vc.assume(implies(c.n.Reach, and(app("bvsle", bvLit(64, 0), nn), app("bvsle", nn, src.C[2]), implies(app("bvslt", nn, src.C[2]), isErr(err)))))
 	c.sinkWrite(ref, src, nn, maxN)
 	st.H["Wfail"] = vc.def(stateSorts["Wfail"], sto(st.H["Wfail"], ref, or(sel(st.H["Wfail"], ref), isErr(err))), "Wfail")
 	return err
